@@ -44,6 +44,8 @@ import Restful.Lemmas.JsrSlash
 import Restful.Lemmas.AllowSlash
 import Restful.Spec.Slash
 import Restful.Lemmas.StateShape
+import Restful.Lemmas.TieImpPath
+import Restful.Lemmas.TieImpMatch
 namespace Restful
 namespace Props
 variable (E : ReEnv)
@@ -296,3 +298,8 @@ end C14Example
 
 end Props
 end Restful
+
+-- the imperative functions this property's model rests on, tied to their statement-by-statement
+-- translation (tools/goimp, Gen/Imp.lean, regenerated on every run):
+-- also: Restful.TieImp.T2.tokenize_path
+-- also: Restful.TieImp.match_tokens
